@@ -15,8 +15,10 @@ git checkout -q -- . ; git clean -fdq -- modules testing 2>/dev/null
 DIR=$(python3 -c "import json,sys;print(json.load(open('$OUT/meta.json'))['demo']['dir'])" 2>/dev/null)
 [ -n "$DIR" ] || { echo "NOT-CONFIRMED: no demo dir in meta.json"; exit 1; }
 DIR="${DIR#./}"; DIR="${DIR%/}"
-RUN=$(grep -o "func Test[A-Za-z0-9_]*\|func (suite \*[A-Za-z]*) Test[A-Za-z0-9_]*\|func (s \*[A-Za-z]*) Test[A-Za-z0-9_]*" "$OUT/demo_test.go" | sed 's/.* //' | paste -sd'|')
-[ -n "$RUN" ] || { echo "NOT-CONFIRMED: no test function in demo"; exit 1; }
+TOP=$(grep -o "^func Test[A-Za-z0-9_]*" "$OUT/demo_test.go" | sed 's/.* //' | paste -sd'|')
+METH=$(grep -o "^func ([a-z]* \*[A-Za-z]*) Test[A-Za-z0-9_]*" "$OUT/demo_test.go" | sed 's/.* //' | paste -sd'|')
+if [ -n "$METH" ]; then RUN="/^($METH)\$"; else RUN="^($TOP)\$"; fi
+[ -n "$TOP$METH" ] || { echo "NOT-CONFIRMED: no test function in demo"; exit 1; }
 cleanup() { git checkout -q -- . ; rm -f "$WT/$DIR/zz_demo_seeded_test.go"; }
 trap cleanup EXIT
 git apply "$OUT/patch.diff" || { echo "NOT-CONFIRMED: patch does not apply"; exit 1; }
